@@ -46,7 +46,9 @@ META = {
                "two callers, one solver-chosen written frame answered by an error status or by silence; real "
                "Tridonic driver with a sequence sleeping inside its transaction, the adapter lost and "
                "reconnected during the sleep (or not), the other caller starting at one of five moments; both "
-               "serial callers also with the same device type"],
+               "serial callers also with the same device type, optionally after a stray partial report; an "
+               "unsupported frame handed to the real hasseb / Tridonic driver with exceptions off while another "
+               "caller sends (busy-loop watchdog)"],
     "stubs": ["gateway layer replaced by a recording stub with symbolic duration/outcome"],
     "outside": ["more than 3 concurrent callers", "fairness of asyncio.Lock beyond the explored bounds",
                 "interleavings inside the gateway layer (C16/C17)"],
